@@ -76,6 +76,8 @@ class Contract:
     level = "P"
     unwrap = True
     expect_exceptional_only = False
+    shadow_mode = "module"     # "function": only the target (+ `also`) is re-compiled, see loader.shadow_functions
+    also = ()
 
     def args(self, S, variant):
         raise NotImplementedError
@@ -359,7 +361,15 @@ class _CallOutcome:
 
 
 def load_target(c: Contract):
-    rebind = dict(c.rebind or {})
+    rebind = c.rebind() if callable(c.rebind) else dict(c.rebind or {})
+    if c.shadow_mode == "function":
+        mod, fns = loader.shadow_functions(c.module, [c.qualname] + list(c.also), rebind, c.cuts)
+        if c.stubs:
+            from .stubs import make_stub
+
+            for name, cc in c.stubs.items():
+                mod.__dict__[name] = make_stub(cc)
+        return mod, fns[c.qualname]
     mod = loader.shadow(c.module, rebind, c.cuts)
     if c.stubs:
         from .stubs import make_stub
@@ -390,7 +400,7 @@ def verify(c: Contract, variant=None, deadline_s=600):
         return obs[n]
 
     is_lemma = c.module is None
-    info = {"contract": vname, "function": {"lemma": True} if is_lemma else loader.function_info(c.module, c.qualname), "paths": 0,
+    info = {"contract": vname, "function": {"lemma": True} if is_lemma else loader.function_info(c.module, getattr(c, "source_qualname", None) or c.qualname), "paths": 0,
             "normal_paths": 0, "exceptional_paths": 0, "front_end": "N+cut" if c.cuts else ("N+rebind" if c.rebind else "N")}
     if info["function"] is None:
         o = ob("target", "guard")
